@@ -394,7 +394,8 @@ class Deriver:
             else:
                 v = self.gen(field, sub, avoid)
             fu = unwrap(field)
-            if v is None and getattr(fu, "OPTIONAL", False) and spec._skip_missing:
+            # the real Template looks at the field object itself (a ForwardSerializable wrapper is not OPTIONAL)
+            if v is None and getattr(field, "OPTIONAL", False) and spec._skip_missing:
                 continue
             vals[name] = v
         return vals
